@@ -186,7 +186,14 @@ def numeric_trace(rng, family):
         same = lambda a, b: all(np.array_equal(np.asarray(x), np.asarray(y)) for x, y in zip(  # noqa: E731
             jax.tree_util.tree_leaves(a), jax.tree_util.tree_leaves(b)))
         extracted = iface.extract_position(list(pos), eager)
-        ev.append({"ev": "numeric", "family": family,
+        # the result depends on the two arguments only - not on what the user's own model holds meanwhile
+        keep = model.state
+        for pname, fn in draws.items():
+            tgt = model.nodes[pname] if pname in model.nodes else model.vars[pname]
+            tgt.value = fn(rng)
+        after_user_change = iface.update_state(pos, st)
+        model.state = keep
+        ev.append({"ev": "numeric", "family": family, "same_after_user_change": _vec(after_user_change, names) == _vec(eager, names),
                    "eager": _vec(eager, names), "eager_again": _vec(eager2, names), "jit": _vec(jitted, names),
                    "direct": _vec(direct.state, names),
                    "vmap": [_vec(jax.tree_util.tree_map(lambda x: x[i], vm), names) for i in range(3)],
